@@ -641,6 +641,7 @@ func vspecPublishOK(src []byte) bool {
 //@        && (vspecQoSOf(src[0]) == 0 ==> sameslice(m.payload, src[vspecH(src)+2+len(m.topic):n]))
 //@        && (vspecQoSOf(src[0]) != 0 ==> sameslice(m.packetID, src[vspecH(src)+2+len(m.topic):vspecH(src)+2+len(m.topic)+2]) && sameslice(m.payload, src[vspecH(src)+2+len(m.topic)+2:n]))
 //@   ensures[C03:clean] err == nil ==> !m.dirty && sameslice(m.dbuf, src[:n])
+//@   ensures[C03:type] err == nil ==> Type(src[0]>>4) == old(Type(m.mtypeflags[0]>>4))
 //@   modifies m.remlen, m.mtypeflags, m.dbuf, m.dirty, m.packetID, m.topic, m.payload
 
 //@ func nextPacketID
@@ -672,6 +673,7 @@ func vspecPublishOK(src []byte) bool {
 //@        && (vspecQoSOf(m.mtypeflags[0]) != 0 ==> len(m.packetID) == 2 && eqbytes(dst[n-len(m.payload)-2:n-len(m.payload)], m.packetID))
 //@   ensures[C03,C12:pid] err == nil && old(m.dirty) && vspecQoSOf(m.mtypeflags[0]) != 0 ==> vspecPacketID(m.packetID) != 0
 //@   ensures[C03:keepid] old(vspecPacketID(m.packetID)) != 0 ==> vspecPacketID(m.packetID) == old(vspecPacketID(m.packetID))
+//@   ensures[C03:clean-untouched] !old(m.dirty) ==> !m.dirty && unchanged(m.packetID) && sameslice(m.packetID, old(m.packetID)) && (arr(dst) != arr(m.dbuf) ==> unchanged(m.dbuf)) && sameslice(m.dbuf, old(m.dbuf))
 //@   ensures[C03:accept] old(m.dirty) && len(m.topic) > 0 && vspecPublishBody(len(m.topic), len(m.payload), vspecQoSOf(m.mtypeflags[0])) <= 268435455 && len(dst) >= 5+vspecPublishBody(len(m.topic), len(m.payload), vspecQoSOf(m.mtypeflags[0])) && m.mtypeflags[0] >= 16 && m.mtypeflags[0] < 240 ==> err == nil
 //@   ensures[C03:unchanged] unchanged(m.topic) && unchanged(m.payload) && sameslice(m.topic, old(m.topic)) && sameslice(m.payload, old(m.payload)) && m.mtypeflags[0] == old(m.mtypeflags[0])
 //@   modifies elems(dst, 0, n), m.remlen, m.dirty, m.packetID, elems(m.packetID), gPacketID
@@ -1114,15 +1116,36 @@ func vspecCWM(src []byte) int { return vspecCW(src) + 2 + vspecBE16(src, vspecCW
 //@   ensures[C07:codes] err == nil ==> m.dirty && len(m.returnCodes) == old(len(m.returnCodes))+len(ret) && forall(0, len(ret), func(i int) bool { return m.returnCodes[old(len(m.returnCodes))+i] == ret[i] })
 //@   modifies m.returnCodes, m.dirty, capelems(m.returnCodes)
 
-// Clone: a new message object decoded from a fresh encoding of m (never aliases m or its buffers).
+// A decoded (clean) PUBLISH: its fields are the parse of its own packet bytes m.dbuf (what Decode establishes).
+//@ define vdefPubParsed(m)
+//@   is len(m.dbuf) >= 2 && sameslice(m.mtypeflags, m.dbuf[0:1]) && len(m.dbuf) == vspecH(m.dbuf)+vspecVarintVal(m.dbuf, 1)
+//@      && sameslice(m.topic, m.dbuf[vspecH(m.dbuf)+2:vspecH(m.dbuf)+2+vspecBE16(m.dbuf, vspecH(m.dbuf))])
+//@      && (vspecQoSOf(m.dbuf[0]) == 0 ==> sameslice(m.payload, m.dbuf[vspecH(m.dbuf)+2+len(m.topic):len(m.dbuf)]))
+//@      && (vspecQoSOf(m.dbuf[0]) != 0 ==> sameslice(m.payload, m.dbuf[vspecH(m.dbuf)+2+len(m.topic)+2:len(m.dbuf)]))
+
+// Clone: a new message object decoded from a fresh encoding of m (never aliases m or its buffers), with the same
+// flags, topic and payload (C08: a QoS-downgraded copy of a retained message carries the original's content).
 //@ func (*PublishMessage).Clone
-//@   flag bodyhash 90351d5115df
-//@   trusted
 //@   results cm, err
 //@   requires len(m.mtypeflags) == 1
+//@   requires len(m.packetID) == 0 || len(m.packetID) == 2
+//@   requires disjoint(m.packetID, m.topic) && disjoint(m.packetID, m.payload) && disjoint(m.packetID, m.mtypeflags)
+//@   requires len(m.topic) <= 65535 && len(m.payload) <= 100000000
 //@   ensures[C08:clone-fresh] err == nil ==> cm != nil && fresh(cm) && len(cm.mtypeflags) == 1 && fresh(arr(cm.mtypeflags)) && Type(cm.mtypeflags[0]>>4) == PUBLISH
 //@   ensures[C08:clone-fresh] err != nil ==> cm == nil
-//@   modifies m.remlen, m.dirty, m.packetID, gPacketID, gfield(0, "encn"), gfield(0, "encarr"), gfield(0, "encoff"), gfield(0, "encAt"), fields(cm)
+//@   ensures[C08:clone-fresh] err == nil ==> fresh(arr(cm.payload)) && fresh(arr(cm.topic)) && !cm.dirty
+//@   ensures[lemma-varint] err == nil && old(m.dirty) ==> vspecVarintN(cm.dbuf, 1) == vspecVarintLen(int(m.remlen))
+//@   ensures[lemma-varint1] err == nil && old(m.dirty) && vspecVarintLen(int(m.remlen)) == 1 ==> int(cm.dbuf[1]) == int(m.remlen)
+//@   ensures[lemma-varint2] err == nil && old(m.dirty) && vspecVarintLen(int(m.remlen)) == 2 ==> int(cm.dbuf[1]) == int(m.remlen)%128+128 && int(cm.dbuf[2]) == int(m.remlen)/128
+//@   ensures[lemma-varint3] err == nil && old(m.dirty) && vspecVarintLen(int(m.remlen)) == 3 ==> int(cm.dbuf[1]) == int(m.remlen)%128+128 && int(cm.dbuf[2]) == (int(m.remlen)/128)%128+128 && int(cm.dbuf[3]) == int(m.remlen)/16384
+//@   ensures[lemma-varint4] err == nil && old(m.dirty) && vspecVarintLen(int(m.remlen)) == 4 ==> int(cm.dbuf[1]) == int(m.remlen)%128+128 && int(cm.dbuf[2]) == (int(m.remlen)/128)%128+128 && int(cm.dbuf[3]) == (int(m.remlen)/16384)%128+128 && int(cm.dbuf[4]) == int(m.remlen)/2097152
+//@   ensures[lemma-varint] err == nil && old(m.dirty) ==> vspecVarintVal(cm.dbuf, 1) == int(m.remlen)
+//@   ensures[lemma-topiclen] err == nil && old(m.dirty) ==> vspecBE16(cm.dbuf, vspecH(cm.dbuf)) == len(m.topic) && len(cm.topic) == len(m.topic) && len(cm.payload) == len(m.payload)
+//@   ensures[C08:clone-content-dirty] err == nil && old(m.dirty) ==> cm.mtypeflags[0] == old(m.mtypeflags[0]) && eqbytes(cm.payload, m.payload) && eqbytes(cm.topic, m.topic)
+//@   ensures[lemma-clean] err == nil && !old(m.dirty) && vdefPubParsed(m) ==> len(cm.dbuf) == len(m.dbuf) && cm.dbuf[0] == m.dbuf[0] && vspecH(cm.dbuf) == vspecH(m.dbuf) && vspecBE16(cm.dbuf, vspecH(cm.dbuf)) == vspecBE16(m.dbuf, vspecH(m.dbuf)) && len(cm.topic) == len(m.topic) && len(cm.payload) == len(m.payload)
+//@   ensures[C08:clone-content-clean] err == nil && !old(m.dirty) && vdefPubParsed(m) ==> cm.mtypeflags[0] == old(m.mtypeflags[0]) && eqbytes(cm.payload, m.payload) && eqbytes(cm.topic, m.topic)
+//@   ensures[C08:source-untouched] unchanged(m.topic) && unchanged(m.payload) && sameslice(m.topic, old(m.topic)) && sameslice(m.payload, old(m.payload)) && m.mtypeflags[0] == old(m.mtypeflags[0]) && sameslice(m.mtypeflags, old(m.mtypeflags))
+//@   modifies m.remlen, m.dirty, m.packetID, elems(m.packetID), gPacketID, gfield(0, "encn"), gfield(0, "encarr"), gfield(0, "encoff"), gfield(0, "encAt"), fields(cm)
 
 //@ func (*ConnectMessage).ClientID
 //@   pure
